@@ -151,4 +151,4 @@ if __name__ == '__main__':
                      'transactions; interleavings enumerated as paths; '
                      'serial reference executions are run inside the same '
                      'path on fresh copies of the same symbolic state'],
-        quick_budget=170, thorough_budget=1700))
+        quick_budget=420, thorough_budget=2400))
